@@ -745,6 +745,17 @@ pub fn script_runs(out: &mut Out, path: &str) {
                 }
                 continue;
             }
+            if l[0] == "rfree" {
+                // macro letter: a whole tree allocated through a slot, then freed without naming the slot
+                let c = sym(&l[1]) as u8;
+                let sl = h.valid_slot(c, osl(&l[2]));
+                let r = h.step(&Op::Get(TO, c, sl, None));
+                if r["res"] == "ok" && h.alive() {
+                    let f = r["frame"].as_u64().unwrap() as usize;
+                    h.step(&Op::Put(f, TO, c, None));
+                }
+                continue;
+            }
             if l[0] == "frag" {
                 let t = sym(&l[1]);
                 for r in 0..(TF / 64) {
